@@ -667,6 +667,45 @@ func c19Wiring(R *vr.Result, rng *rand.Rand) {
 			}
 		}
 	}
+	// a login-triggered hash upgrade is a change of the store like any other: one notification iff the record was rewritten
+	{
+		st3 := ovlMkStore(rng, filepath.Join(root, "c"), sets, 1, []ovlUser{{Name: "root", Pw: "rootpw", Admin: true, Set: 1}, {Name: "alice", Pw: "pw", Set: 1}, {Name: "marker", Pw: "pw", Set: 1},
+			{Name: "up1", Pw: "uppw1", Set: 2, Aux: "totp: QUJD\n"}, {Name: "up2", Pw: "uppw2", Set: 2}, {Name: "up3", Pw: "uppw3", Admin: true, Set: 2}})
+		ag3, err := NewStore(st3.Cfg, "local", "", "", hooksDir)
+		if err != nil {
+			R.Fatal = err.Error()
+			return
+		}
+		if3 := ag3.GetInterface()
+		logins := []struct{ name, user, pw string }{
+			{"login-upgradeable", "up1", "uppw1"}, {"login-upgradeable-wrong-password", "up2", "nope"}, {"login-already-upgraded", "up1", "uppw1"},
+			{"login-default-set", "alice", "pw"}, {"login-upgradeable-2", "up2", "uppw2"}, {"login-upgradeable-admin", "up3", "uppw3"}, {"login-unknown", "ghost", "x"},
+		}
+		for _, l := range logins {
+			_, fileBefore, _, _ := st3.File(l.user)
+			before := count()
+			if3.Authenticate(l.user, l.pw) //nolint:errcheck
+			// the upgrade (if any) sits in the update queue ahead of this marker; its notification precedes the marker's
+			if3.Update("marker", "pw") //nolint:errcheck
+			if !c19Wait(10*time.Second, func([]verifEvt) bool { return count() >= before+1 }) {
+				R.Inconcl("marker notification not consumed within the watchdog")
+				return
+			}
+			time.Sleep(5 * time.Millisecond)
+			_, fileAfter, _, _ := st3.File(l.user)
+			got := count() - before - 1
+			want := 0
+			if string(fileBefore) != string(fileAfter) {
+				want = 1
+				R.Count("wiring_upgrades_observed", 1)
+			}
+			R.Case("wiring|"+l.name, true)
+			R.Count("wiring_steps", 1)
+			if got != want {
+				R.Violate(fmt.Sprintf("c19:notifications-for-%s:got=%d:want=%d", l.name, got, want), fmt.Sprintf("the login %s (upgrades local) left the record of %s %s and produced %d hook notifications, expected %d: a record rewritten by a hash upgrade is a change of the store that no hook hears about", l.name, l.user, map[bool]string{true: "rewritten", false: "unchanged"}[want == 1], got, want), id, nil)
+			}
+		}
+	}
 	// reload: the store path handed to hooks follows the configuration
 	os.WriteFile(st.Cfg, []byte(ref.YAML(st2.Base, 1, sets)), 0600) //nolint:errcheck
 	s0 := c19Seq()
